@@ -18,3 +18,32 @@ Print Assumptions C01_split_total.
 Theorem C01_at_then_brace : forall pb c r, classify1 pb c r = Some MAt -> good_head (classify (N.eqb c c_bs) r).
 Proof. exact at_then_brace. Qed.
 Print Assumptions C01_at_then_brace.
+
+(* ---- the public entry points with their default stacks (Model/Pipeline.v; proofs in Proofs/PipelineTotal.v) *)
+From BP Require Import Model.Writer Model.Pipeline Proofs.PipelineTotal.
+
+(* parse_string (split, resolve @string references, remove enclosings) returns a library for EVERY text *)
+Theorem C01_parse_total : forall t, exists bs, parse_default t = PVal bs.
+Proof. exact parse_default_total. Qed.
+Print Assumptions C01_parse_total.
+
+(* write_string (default stack: add enclosings on a copy; writer) on that library returns a string for EVERY text *)
+Theorem C01_parse_write_total : forall t, exists s, parse_write t = PVal s.
+Proof. exact parse_write_total. Qed.
+Print Assumptions C01_parse_write_total.
+
+(* ... and for every format whose failed-block comment template expands *)
+Theorem C01_write_total : forall f bs, Forall good_block bs -> template_ok f -> exists s, write_default f bs = PVal s.
+Proof. exact write_default_total. Qed.
+Print Assumptions C01_write_total.
+
+(* syntax errors surface only as failed blocks stored in the library: the default stack drops or adds no block,
+   and every failed block carries its raw text (its error is part of the constructor) *)
+Theorem C01_failed_carry : forall t bs, parse_default t = PVal bs ->
+  Forall (fun b => is_failed_class b = true -> exists r, raw (bhdr b) = Some r) bs.
+Proof. exact failed_carry. Qed.
+Print Assumptions C01_failed_carry.
+
+Theorem C01_no_block_lost : forall t bs0 bs, split t = Blocks bs0 -> parse_default t = PVal bs -> length bs = length bs0.
+Proof. exact parse_default_length. Qed.
+Print Assumptions C01_no_block_lost.
